@@ -28,6 +28,12 @@ def impEngine (args : List String) : String :=
       | none => "none"
       | some d => showImpact (d.priceImpact w u ⟨e, fp, fn⟩)
     | _, _ => "bad-op"
+  -- swap impact with an optional virtual inventory: `vflag` 1 = virtual pool (vl, vs) present
+  | ["vdelta", w, u, e, fp, fn, pl, ps, vflag, vl, vs, dl, ds, prl, prs, incl] =>
+    match allNat [w, u, e, fp, fn, pl, ps, vl, vs, prl, prs], allInt [dl, ds], pBool vflag, pBool incl with
+    | some [w, u, e, fp, fn, pl, ps, vl, vs, prl, prs], some [dl, ds], some vflag, some incl =>
+      showImpact (swapImpactWithVirtual w u ⟨e, fp, fn⟩ pl ps (if vflag then some (vl, vs) else none) dl ds prl prs incl)
+    | _, _, _, _ => "bad-op"
   | _ => "bad-op"
 
 end Gmx.Drv
